@@ -38,7 +38,22 @@ def _doc_text(rng, doc, suffix):
                       trailing_newline=rng.random() < 0.9), style
 
 
+LEFTOVER_SUFFIXES = (".bak.tmp", ".tmp", ".new", "~", ".bak~", ".orig",
+                     ".bak.new", ".swp")
+
+
 def _stale_bak(rng, files, target, original):
+    if rng.random() < 0.12:
+        # what an interrupted earlier run (of this or of any other tool) may
+        # have left next to the file: longer than anything written today
+        files[target + rng.choice(LEFTOVER_SUFFIXES)] = \
+            "leftover: of an interrupted run\n" + \
+            "".join("line %03d of something much longer\n" % n
+                    for n in range(rng.choice([3, 40, 300])))
+    return _stale_bak_only(rng, files, target, original)
+
+
+def _stale_bak_only(rng, files, target, original):
     roll = rng.random()
     if roll < 0.45:
         return "absent"
